@@ -46,11 +46,45 @@ func C11(p *core.Program, r *core.Report) {
 				}
 			}
 		}
+		// the flags handed to the message constructor, evaluated on the path
+		pe.OnInstr = func(in ssa.Instruction, st *core.PathState) {
+			if c, ok := in.(*ssa.Call); ok && core.NameIs(core.CalleeName(c), msgsPkg+".NewDataTransmissionMessage") {
+				if k, ok := st.Known(core.CallArgs(c)[0]); ok {
+					st.Data["flags"] = k
+				} else {
+					st.Data["flags"] = int64(-1)
+				}
+			}
+		}
 		pe.Run()
 		fullWithEnd, fullNoEnd, partialWithEnd, partialNoEnd := 0, 0, 0, 0
+		startBad := ""
+		nMsg := 0
 		for _, pr := range pe.Paths {
 			if pr.Panics || pr.ErrOutcome(1) == "nonnil" {
 				continue
+			}
+			flags, has := pr.State.Data["flags"].(int64)
+			if !has {
+				continue
+			}
+			nMsg++
+			if flags < 0 {
+				startBad = "the flags of a segment are not a known combination of constants on some path"
+				continue
+			}
+			first := false
+			for _, c := range pr.State.Taken {
+				if pathEndsWith(c.V, "startFlag") && c.True {
+					first = true
+				}
+			}
+			if first != (flags&segStart != 0) {
+				startBad = fmt.Sprintf("on a path where startFlag is %v the segment carries flags %#x (START %v): the start flag must be on exactly the first segment — e.g. lost when the only segment is also a completely filled last one (segment size == encoded length)", first, flags, flags&segStart != 0)
+			}
+			pr.State.Data["end"] = nil
+			if flags&segEnd != 0 {
+				pr.State.Data["end"] = true
 			}
 			// did ReadFull fill the buffer on this path?  its error is nil iff neither ErrUnexpectedEOF nor != nil were taken
 			partial := false
@@ -73,6 +107,7 @@ func C11(p *core.Program, r *core.Report) {
 				fullNoEnd++
 			}
 		}
+		r.Check(startBad == "" && nMsg > 0, "start-flag/"+fname(ns)+"/exactly-first", "evaluating the flags on every path: a segment carries START exactly when it is the transfer's first segment", p.Pos(readFull.Pos()), fmt.Sprintf("%d message-producing path(s)", nMsg), startBad)
 		r.Check(fullWithEnd > 0, "end-flag/"+fname(ns)+"/full-segment-can-be-last", "a segment that fills the buffer can be marked as the last one (when the encoded length is a multiple of the segment size the last segment is a full one)", p.Pos(readFull.Pos()), fmt.Sprintf("%d full-read path(s) set END", fullWithEnd), "SegmentEnd is only set on a partial read (ErrUnexpectedEOF): 8 bytes with segment size 4 produce START/-, then EOF — no END is ever sent, the receiver never hands the bundle up, yet Send returns nil")
 		r.Check(fullNoEnd > 0, "end-flag/"+fname(ns)+"/full-segment-can-continue", "a full segment is not always the last one", p.Pos(readFull.Pos()), "", "every full segment carries END")
 		r.Check(partialWithEnd > 0 && partialNoEnd == 0, "end-flag/"+fname(ns)+"/partial-is-last", "a partial read always ends the transfer", p.Pos(readFull.Pos()), "", fmt.Sprintf("partial-read paths with END %d, without END %d", partialWithEnd, partialNoEnd))
